@@ -518,10 +518,21 @@ func (p *Pool) Gen(s *choice.Stream, maxLen int) Input {
 	case 7: // hyphenated line ends and CRLF
 		sc := p.Scenarios[s.Draw(len(p.Scenarios), "scenario")]
 		txt := string(sc.Data)
-		if s.Draw(2, "crlf") == 0 {
+		switch s.Draw(4, "reflow-kind") {
+		case 0:
 			txt = strings.ReplaceAll(txt, "\n", "\r\n")
-		} else {
+		case 1:
 			txt = strings.ReplaceAll(txt, "tion ", "tion-\n")
+		case 2: // classic Mac line ends: lone carriage returns
+			txt = strings.ReplaceAll(txt, "\n", "\r")
+		default: // mixed
+			ls := strings.Split(txt, "\n")
+			var sb strings.Builder
+			for _, l := range ls {
+				sb.WriteString(l)
+				sb.WriteString([]string{"\n", "\r\n", "\r"}[s.Draw(3, "eol")])
+			}
+			txt = sb.String()
 		}
 		desc = "reflowed:" + sc.Name
 		b = []byte(txt)
